@@ -36,6 +36,18 @@ type valueConverter interface {
 	value() *Value
 }
 
+// vertexID is the hash code of the value and type vertices. It is a
+// comparable struct rather than a formatted string: a string such as
+// "name/type/subtype" is ambiguous as soon as a name or subtype contains the
+// separator (and two distinct types can print the same), which made different
+// values share one vertex.
+type vertexID struct {
+	Kind    string
+	Name    string
+	Type    reflect.Type
+	Subtype string
+}
+
 // valueVertex represents any named and typed value.
 type valueVertex struct {
 	Name    string
@@ -45,7 +57,7 @@ type valueVertex struct {
 }
 
 func (v *valueVertex) Hashcode() interface{} {
-	return fmt.Sprintf("%s/%s/%s", v.Name, v.Type.String(), v.Subtype)
+	return vertexID{Kind: "value", Name: v.Name, Type: v.Type, Subtype: v.Subtype}
 }
 
 // value returns the Value structures for this vertex. This is useful
@@ -80,10 +92,12 @@ type typedArgVertex struct {
 }
 
 func (v *typedArgVertex) Hashcode() interface{} {
-	return fmt.Sprintf("arg: %s/%s", v.Type.String(), v.Subtype)
+	return vertexID{Kind: "arg", Type: v.Type, Subtype: v.Subtype}
 }
 
-func (v *typedArgVertex) String() string { return v.Hashcode().(string) }
+func (v *typedArgVertex) String() string {
+	return fmt.Sprintf("arg: %s/%s", v.Type.String(), v.Subtype)
+}
 
 // See valueVertex.value
 func (v *typedArgVertex) value() *Value {
@@ -107,11 +121,11 @@ type typedOutputVertex struct {
 }
 
 func (v *typedOutputVertex) Hashcode() interface{} {
-	return fmt.Sprintf("out: %s/%s", v.Type.String(), v.Subtype)
+	return vertexID{Kind: "out", Type: v.Type, Subtype: v.Subtype}
 }
 
 func (v *typedOutputVertex) String() string {
-	str := v.Hashcode().(string)
+	str := fmt.Sprintf("out: %s/%s", v.Type.String(), v.Subtype)
 	if v.Value.IsValid() {
 		str += fmt.Sprintf(" (value: %v)", v.Value.Interface())
 	}
